@@ -164,7 +164,8 @@ def handle (ws : List String) : String :=
           | .error _ => "err"))
       | _, _ => "bad-op"
     | none => "bad-op"
-  | "links" :: sbt :: n :: rest =>
+  | "links" :: sbt :: ps :: uu :: pu :: n :: rest =>
+    if !(isFlag ps && isFlag uu && isFlag pu) then "bad-op" else
     match n.toNat? with
     | some n =>
       let sup := if sbt == "N" then some none else if sbt == "T" then some (some true)
@@ -172,14 +173,33 @@ def handle (ws : List String) : String :=
       match sup, (rest.take n).mapM dec, (rest.drop n).mapM String.toNat? with
       | some sup, some labels, some blocks =>
         if blocks.any (· ≥ n) then "bad-op" else
-        let w := writeLinks sup labels blocks
+        let w := writeLinksE (flag ps) (flag uu) sup labels blocks
         let o := fun (x : Option Str) => match x with
           | some s => enc s
           | none => "-"
-        " ".intercalate (w.1.map o ++ ["|"] ++ w.2.map o ++ ["|"] ++ (readLinks w).map (fun r => match r with
+        " ".intercalate (w.1.map o ++ ["|"] ++ w.2.map o ++ ["|"] ++ (readLinksE (flag pu) w).map (fun r => match r with
           | .ok i => toString i
           | .error _ => "err"))
       | _, _, _ => "bad-op"
+    | none => "bad-op"
+  | "titles" :: ps :: uu :: n :: rest =>
+    -- TITLE tokens of `n` namespaces followed by the labelled matrices / tree lists, in writing order
+    if !(isFlag ps && isFlag uu) then "bad-op" else
+    match n.toNat?, rest.mapM dec with
+    | some n, some labels =>
+      if n > labels.length then "bad-op" else
+      " ".intercalate ((assignTitles [] (labels.take n) ++ blockTitles (labels.take n) (labels.drop n)).map (fun t =>
+        enc (escToken (flag ps) (!flag uu) t)))
+    | _, _ => "bad-op"
+  | ["esc", ps, qu, h] =>
+    if !(isFlag ps && isFlag qu) then "bad-op" else
+    match (if h == "=" then some [] else dec h) with
+    | some t => enc (escToken (flag ps) (flag qu) t)
+    | none => "bad-op"
+  | ["tok", pu, h] =>
+    if !isFlag pu then "bad-op" else
+    match dec h with
+    | some t => enc (readToken (flag pu) t)
     | none => "bad-op"
   | _ => "bad-op"
 
